@@ -336,6 +336,21 @@ harness!(td_insert_merges_backlog0, unwind 5, {
     chk!("backlog0_min_max", d.min() == if x < p.mn { x } else { p.mn } && d.max() == if x > p.mx { x } else { p.mx });
 });
 
+/// Backlog size 0 with total fusion (delta = 1.1): the insert merges at once and fuses everything into one centroid.
+harness!(td_insert_merges_backlog0_fuse, unwind 5, {
+    let p = arb_parts(1, false);
+    let mut d = TDigest::verif_from_parts(K0::new(1.1), 0, &[(p.w[0], p.m[0] * p.w[0])], p.mn, p.mx, 1);
+    let (x, w) = (small(), weight());
+    d.insert_weighted(x, w);
+    let (nc, nb) = d.verif_lens();
+    chk!("backlog0_merged_at_once", nb == 0 && (nc == 1 || nc == 2));
+    let (c1, s1) = raw_totals(&d);
+    chk!("fuse_preserves_count", c1 == p.w[0] + w && d.count() == c1);
+    chk!("fuse_preserves_sum", s1 == p.m[0] * p.w[0] + x * w && d.sum() == s1);
+    chk!("fuse_min_max", d.min() == if x < p.mn { x } else { p.mn } && d.max() == if x > p.mx { x } else { p.mx });
+    cov!("fused_into_one", nc == 1);
+});
+
 // ------------------------------------------------------------------ C19
 harness!(td_clear_clone, unwind 5, {
     let p = arb_parts(2, false);
